@@ -371,6 +371,32 @@ func runC05(p *an.Prog, r *an.Run, tier string) {
 		r.Check(len(bad) == 0, "key", kind, m.Pos(), "entry keyed by the identity only, holding the request's nonce", "%s", strings.Join(dedup(bad), "; "))
 	}
 
+	// ---- nonce-writers: the high-water marks are written by CheckAndSaveNonce only; nothing else (re-registration,
+	// clean-up, ...) may write or delete them, or nonces would move backwards
+	for _, d := range p.Implementations(p.Iface("pool/store", "NonceStore")) {
+		kind := driverKind(d)
+		if kind == "" {
+			continue
+		}
+		var bad []string
+		nm := 0
+		ms := types.NewMethodSet(types.NewPointer(d))
+		for i := 0; i < ms.Len(); i++ {
+			m := p.MethodOf(d, ms.At(i).Obj().Name())
+			if m == nil || m.Name() == "CheckAndSaveNonce" {
+				continue
+			}
+			nm++
+			for _, o := range driverOps(p, d, m) {
+				if (o.Kind == opWrite || o.Kind == opDelete) && o.inSpace("nonce") {
+					bad = append(bad, an.FuncName(m)+" writes or deletes a saved nonce at "+p.Pos(o.In.Pos())+": requests older than the forgotten nonce are accepted again")
+				}
+			}
+		}
+		r.Floor("nonce-writers-"+kind+"-methods", nm, 10)
+		r.Check(len(bad) == 0, "nonce-writers", kind, token.NoPos, "saved nonces are written by CheckAndSaveNonce only", "%s", strings.Join(dedup(bad), "; "))
+	}
+
 	// ---- same-identity
 	ws := VerifyWrappers(p)
 	r.Floor("verify-wrappers", len(ws), 2)
@@ -395,5 +421,9 @@ func runC05(p *an.Prog, r *an.Run, tier string) {
 		na := methodArgs(non)
 		ok := len(va) >= 4 && len(na) == 2 && na[0] == va[2] && na[1] == va[3]
 		r.Check(ok, "same-identity", name, non.Pos(), "CheckAndSaveNonce(id, nonce) uses the identity and nonce that were verified", "the nonce store is given a different identity/nonce than the signature check: nonces of one identity could affect another, or an unverified nonce be stored")
+		// any failure of the nonce store refuses the request: a request let through although its nonce was not recorded
+		// (store fault, badger ErrConflict of the losing duplicate) can be honoured again
+		fp := failPropagates(p, w, non)
+		r.Check(len(fp) == 0, "nonce-error", name, non.Pos(), "every error of CheckAndSaveNonce refuses the request", "%s", strings.Join(fp, "; "))
 	}
 }
